@@ -463,7 +463,7 @@ def handle (toks : List String) (impl : String) : Verdict :=
       else if on "C08" && f.closings > 1 then "fail:C08-more-than-one-closing-event"
       else if on "C08" && f.afterEnd then "fail:C08-activity-after-the-end"
       else if on "C05" && honest && !f.sv.violations.isEmpty then "fail:C05-line-written-while-server-idles"
-      else if (on "C05" || on "C01") && password.isNone && strangerBlock then "fail:C05-request-line-that-no-caller-issued"
+      else if (on "C05" || on "C01" || on "C17") && password.isNone && strangerBlock then "fail:C05-request-line-that-no-caller-issued"
       else if on "C18" && honest && !f.sv.authLines.isEmpty then "fail:C18-request-before-password-accepted"
       else if on "C18" && f.idleBeforeAuth then "fail:C18-idle-before-password-accepted"
       else if on "C18" && f.connNoAccept then "fail:C18-connected-without-the-server-accepting-the-password"
